@@ -333,12 +333,12 @@ fn hist_source(which: usize, variant: bool) -> (&'static str, String) {
     match which {
         0 => ("main.oal", format!(
             "use \"defs.oal\" as d;\nlet tree = rec x {{ 'kids [x], 'item d.item }};\nres /{} on get -> <tree>;\nres /items on get -> <[d.item]>;\n",
-            if variant { "forest" } else { "tree" }
+            if variant { "wood" } else { "tree" }
         )),
-        1 => ("defs.oal", format!("let item = {{ '{} str, 'id int }};\n", if variant { "title" } else { "name" })),
+        1 => ("defs.oal", format!("let item = {{ '{} str, 'id int }};\n", if variant { "code" } else { "name" })),
         _ => ("base.yaml", format!(
             "openapi: 3.0.3\ninfo:\n  title: {}\n  version: '1'\nx-one: 1\nx-two:\n  k: v\nx-three: [a, b]\nx-four: true\npaths: {{}}\ntags:\n- name: t1\n- name: t2\n",
-            if variant { "Second" } else { "First" }
+            if variant { "Other" } else { "First" }
         )),
     }
 }
@@ -450,6 +450,133 @@ fn judge_cli_history(ops: &[&'static str], sink: Option<&mut Sink>) -> Outcome {
     }
 }
 
+// ---------------------------------------------------------------------------
+// Processor histories: the client library's own Processor (what oal-cli is built from), used
+// the way a long-lived tool uses it: one thread compiles main.oal again and again while the
+// sources change on disk. Each compilation is compared with one of the same files by a fresh
+// thread. The two versions of every file have the same length, and under the frozen clock
+// every write carries the same modification time (edits within one second).
+
+const PROC_OPS: [&str; 3] = ["compile", "edit main", "edit import"];
+
+fn proc_ops(len: usize, mut k: u64) -> Vec<&'static str> {
+    let mut v = Vec::with_capacity(len);
+    for _ in 0..len {
+        v.push(PROC_OPS[(k % PROC_OPS.len() as u64) as usize]);
+        k /= PROC_OPS.len() as u64;
+    }
+    v
+}
+
+fn processor_compile(dir: &str) -> String {
+    let main = std::path::PathBuf::from(format!("{dir}/main.oal"));
+    let loc = oal_model::locator::Locator::from(url::Url::from_file_path(&main).expect("harness: file url"));
+    let r = guard(|| {
+        let proc = oal_client::cli::Processor::new();
+        let mods = match proc.load(&loc) {
+            Ok(m) => m,
+            Err(e) => return format!("<load error {e}>"),
+        };
+        match proc.eval(&mods) {
+            Ok(spec) => serde_yaml::to_string(&oal_openapi::Builder::new(spec).into_openapi()).expect("serialisation"),
+            Err(e) => format!("<eval error {e}>"),
+        }
+    });
+    r.unwrap_or_else(|p| format!("<panic {}>", p.message))
+}
+
+fn judge_processor_history(ops: &[&'static str], frozen: bool, sink: Option<&mut Sink>) -> Outcome {
+    let dir = format!("/var/tmp/oalmc-c06p-{}-{}", std::process::id(), hash_of(&(ops.to_vec(), frozen)));
+    let _ = std::fs::remove_dir_all(&dir);
+    std::fs::create_dir_all(&dir).expect("harness: scratch directory");
+    let mut all: Vec<&'static str> = vec!["compile"];
+    all.extend(ops.iter().copied());
+    all.push("compile");
+    let dir2 = dir.clone();
+    let all2 = all.clone();
+    // the whole history runs on one fresh thread; every referee on a thread of its own
+    let (verdict, compiles, variant) = std::thread::scope(|sc| {
+        std::thread::Builder::new()
+            .stack_size(8 << 20)
+            .spawn_scoped(sc, move || {
+                let dir = dir2;
+                let mut tick = 0u64;
+                let mut variant = [false; 2];
+                let write = |which: usize, variant: bool, tick: u64| {
+                    let (name, text) = hist_source(which, variant);
+                    let path = format!("{dir}/{name}");
+                    std::fs::write(&path, text).expect("harness: write source");
+                    set_mtime(&path, if frozen { 0 } else { tick });
+                };
+                for w in 0..2 {
+                    tick += 1;
+                    write(w, false, tick);
+                }
+                let mut compiles = 0u64;
+                for (step, op) in all2.iter().enumerate() {
+                    tick += 1;
+                    match *op {
+                        "compile" => {
+                            heartbeat();
+                            let here = processor_compile(&dir);
+                            let d = dir.clone();
+                            let referee = std::thread::scope(|s2| {
+                                std::thread::Builder::new()
+                                    .stack_size(8 << 20)
+                                    .spawn_scoped(s2, move || processor_compile(&d))
+                                    .expect("spawn")
+                                    .join()
+                                    .unwrap_or_else(|_| "<panic in the referee>".into())
+                            });
+                            compiles += 2;
+                            if here != referee {
+                                return (
+                                    Err(format!(
+                                        "after {:?} (step {step}, {} clock) the thread that ran the history gets {} bytes, a fresh thread gets {} bytes for the same files",
+                                        &all2[..=step],
+                                        if frozen { "frozen" } else { "advancing" },
+                                        here.len(),
+                                        referee.len()
+                                    )),
+                                    compiles,
+                                    variant,
+                                );
+                            }
+                            if here.starts_with('<') {
+                                return (Err(format!("compilation of valid sources failed at step {step}: {}", here.chars().take(120).collect::<String>())), compiles, variant);
+                            }
+                        }
+                        edit => {
+                            let w = if edit == "edit main" { 0 } else { 1 };
+                            variant[w] = !variant[w];
+                            write(w, variant[w], tick);
+                        }
+                    }
+                }
+                (Ok(()), compiles, variant)
+            })
+            .expect("spawn")
+            .join()
+            .unwrap_or_else(|_| (Err("the history thread panicked".into()), 0, [false; 2]))
+    });
+    let _ = std::fs::remove_dir_all(&dir);
+    if let Some(s) = sink {
+        s.count("executions", compiles);
+    }
+    match verdict {
+        Ok(()) => Outcome::ok(
+            "every compilation equals the one of a fresh thread",
+            Some(hash_of(&(variant, frozen, ops.iter().filter(|o| **o == "compile").count()))),
+        ),
+        Err(why) => Outcome::bad(
+            "history-dependent-processor",
+            "the document a thread gets from the client library depends on what it compiled before".into(),
+            why,
+            json!({"kind":"processor-history","ops": ops, "frozen": frozen}),
+        ),
+    }
+}
+
 fn judge_tapes(texts: &[(String, String)], sink: Option<&mut Sink>) -> Outcome {
     let files = pipeline::files_of(texts);
     // The large programs: 1 deviation, 3 alternative orders at a spread of choice points.
@@ -548,6 +675,10 @@ impl Engine for C06 {
             &format!("oal-cli histories: every sequence of <= {} operations (compile to the same target, edit main / the import / the base, delete the target), target compared with a compilation of the same sources in a fresh directory", if t { 5 } else { 4 }),
             json!({"kind":"cli-history","thorough":t,"depth": if t { 5 } else { 4 }}),
         ).workers(8));
+        v.push(Phase::new(
+            &format!("Processor histories: one thread compiles main.oal through oal_client::cli::Processor before, between and after every sequence of <= {} operations (compile, edit main, edit the import; equal-length versions) under an advancing and a frozen file clock, each compilation compared with a fresh thread's", if t { 6 } else { 4 }),
+            json!({"kind":"processor-history","thorough":t,"depth": if t { 6 } else { 4 }}),
+        ).workers(8));
         if t {
             v.insert(2, Phase::new("all ordered triples of a 40-program sub-corpus compiled in one process", json!({"kind":"triples","thorough":t})));
         }
@@ -568,6 +699,25 @@ impl Engine for C06 {
                         sink.visit(idx, || json!({"kind":"cli-history","ops": ops}), |s| judge_cli_history(&ops, Some(s)));
                     }
                     idx += 1;
+                }
+            }
+            return;
+        }
+        if phase.param["kind"] == "processor-history" {
+            let depth = phase.param["depth"].as_u64().unwrap() as usize;
+            let mut idx = 0u64;
+            for len in 0..=depth {
+                for k in 0..(PROC_OPS.len() as u64).pow(len as u32) {
+                    for frozen in [false, true] {
+                        if sink.mine(idx) {
+                            if sink.expired() {
+                                return;
+                            }
+                            let ops = proc_ops(len, k);
+                            sink.visit(idx, || json!({"kind":"processor-history","ops": ops, "frozen": frozen}), |s| judge_processor_history(&ops, frozen, Some(s)));
+                        }
+                        idx += 1;
+                    }
                 }
             }
             return;
@@ -661,6 +811,11 @@ impl Engine for C06 {
                 let ops: Vec<&'static str> = ops.iter().filter_map(|o| HIST_OPS.iter().copied().find(|h| h == o)).collect();
                 judge_cli_history(&ops, None)
             }
+            Some("processor-history") => {
+                let ops: Vec<String> = case["ops"].as_array().map(|a| a.iter().filter_map(|o| o.as_str().map(|s| s.to_owned())).collect()).unwrap_or_default();
+                let ops: Vec<&'static str> = ops.iter().filter_map(|o| PROC_OPS.iter().copied().find(|h| h == o)).collect();
+                judge_processor_history(&ops, case["frozen"].as_bool().unwrap_or(false), None)
+            }
             Some("cli") => match cli_runs(&texts_from_json(case), 6) {
                 Ok(()) => Outcome::ok("same bytes", None),
                 Err(why) => Outcome::bad("process-dependent", "output differs between fresh processes".into(), why, case.clone()),
@@ -669,7 +824,7 @@ impl Engine for C06 {
         }
     }
     fn rule(&self) -> String {
-        "corpus = fragment programs chosen so that every map of the pipeline holds >= 2 entries (examples, tags, modules, parameters, declarations, references, ranges) plus one program with >= 3 entries everywhere; per program a stateless search over all choice tapes (orders of every hash-map iteration met through the ChoiceMap hook; all n! orders for n <= 4; <= 2 deviations from the canonical order); ordered pairs of corpus programs compiled in one process (quick: the first one from every 4th program and the 12 programs built for this property, the second one from the whole corpus; thorough: all pairs and the triples of a 40-program sub-corpus), last output compared with the stand-alone output; one large program (900 / 1500 declarations, then an implicit component) under <= 1 deviation at a spread of its choice points; oal-cli histories over {compile to out.yaml with a base, edit main.oal, edit the imported defs.oal, edit base.yaml, delete the target} of <= 4 (thorough 5) operations followed by a compile, modification times set by a logical clock, the target compared after every compile with the result of compiling the same sources in a fresh directory; oracle: byte-identical YAML. Non-trivial = a document was produced; distinct = distinct documents".into()
+        "corpus = fragment programs chosen so that every map of the pipeline holds >= 2 entries (examples, tags, modules, parameters, declarations, references, ranges) plus one program with >= 3 entries everywhere; per program a stateless search over all choice tapes (orders of every hash-map iteration met through the ChoiceMap hook; all n! orders for n <= 4; <= 2 deviations from the canonical order); ordered pairs of corpus programs compiled in one process (quick: the first one from every 4th program and the 12 programs built for this property, the second one from the whole corpus; thorough: all pairs and the triples of a 40-program sub-corpus), last output compared with the stand-alone output; one large program (900 / 1500 declarations, then an implicit component) under <= 1 deviation at a spread of its choice points; oal-cli histories over {compile to out.yaml with a base, edit main.oal, edit the imported defs.oal, edit base.yaml, delete the target} of <= 4 (thorough 5) operations followed by a compile, modification times set by a logical clock, the target compared after every compile with the result of compiling the same sources in a fresh directory; Processor histories: the same sources (the two versions of each file have equal lengths) compiled in-process through oal_client::cli::Processor by one thread before, between and after every sequence of <= 4 (thorough 6) operations {compile, edit main, edit the import}, once with the logical clock advancing and once with every write carrying the same modification time, each compilation compared with a fresh thread's compilation of the same files; oracle: byte-identical YAML. Non-trivial = a document was produced; distinct = distinct documents".into()
     }
     fn assumptions(&self) -> Vec<String> {
         vec![
